@@ -162,7 +162,10 @@ func subset(r *rand.Rand, xs []string, min, max int) []string {
 }
 
 var regionErrKinds = []simkit.Fate{simkit.RENotLeader, simkit.RENotLeaderHint, simkit.REEpochNotMatch, simkit.REServerIsBusy,
-	simkit.REStaleCommand, simkit.RERegionNotFound, simkit.Delay}
+	simkit.REStaleCommand, simkit.RERegionNotFound, simkit.Delay,
+	// rarer refusals of a store that the sender retries (no effect on the store)
+	simkit.REMaxTSNotSynced, simkit.RERecoveryInProgress, simkit.REIsWitness, simkit.RERegionNotInitialized, simkit.REKeyNotInRegion,
+	simkit.REMismatchPeerID, simkit.REReadIndexNotReady, simkit.REProposalInMerging, simkit.REServerIsBusyHint, simkit.REStoreNotMatch}
 var topoKinds = []simkit.Fate{simkit.TopoSplit, simkit.TopoSplit, simkit.TopoLeader, simkit.TopoLeader, simkit.TopoSplitAfter, simkit.TopoSplitAfter}
 
 // genLayout draws region borders and topology events. aligned = no border strictly inside a keyspace, ever.
